@@ -285,6 +285,37 @@ func TestManyIntegersAndDeepLoops(t *testing.T) {
 	}
 }
 
+// function literals with degenerate bodies (empty, only comments) in every form and position, and the info
+// pseudo-variable read at every call depth and through closures: each evaluated alone.
+func TestOddLiteralsAndInfo(t *testing.T) {
+	bodies := []string{"", "/* todo */", "/* a */ /* b */", "// later\n", "/* c */ 0", "0 /* c */", "/* c */ return", "return", "return /* c */ 1", ";", "{}", "/* c */ {}", "[]", "nil"}
+	var inputs []string
+	for _, b := range bodies {
+		inputs = append(inputs,
+			"x => {"+b+"}", "zf = x => {"+b+"}; zf(1)", "func(){"+b+"}", "(func(){"+b+"})()", "func znamed(a) {"+b+"}; znamed(1); znamed", "(a, b) => {"+b+"}", "() => {"+b+"}",
+			"zm = {\"todo\": x => {"+b+"}}; zm.todo(1); zm", "[x => {"+b+"}, func(){"+b+"}]", "(x => {"+b+"})(1)", "println(x => {"+b+"})", "zq = () => { () => {"+b+"} }; zq()()",
+			"for zi = 2 { zf = () => {"+b+"}; zf() }", "first(x => {"+b+"})", "rest(func(a){"+b+"})", "str(x => {"+b+"})", "(x => {"+b+"}) == (x => {"+b+"})")
+	}
+	for _, rd := range []string{"info", "info.stack", "info.globals", "len(info.keywords)", "info.stack[0]", "println(info.stack)", "str(info.stack)", "info[\"stack\"]", "type(info)", "len(info)"} {
+		inputs = append(inputs, rd,
+			"func zs() { "+rd+" }; zs()",
+			"func zs() { "+rd+" }; func zc(a, b) { zl = a; zs() }; zc(6, 7)",
+			"func zs() { "+rd+" }; func zc(a) { zs() }; func zd(b) { zc(b) }; zd(1)",
+			"zk = () => { zv = 1; () => { () => "+rd+" } }; zk()()()",
+			"zk = () => { () => { zw = 2; "+rd+" } }; zi = zk(); func zo(q) { zi() }; zo(1)",
+			"func zr(n) { if n == 0 { return "+rd+" }; zr(n - 1) }; zr(4)",
+			"for zi = 2 { func zs() { "+rd+" }; zs() }",
+			"catch((x => "+rd+")(1))",
+			"zarr = [() => "+rd+"]; zarr[0]()")
+	}
+	for i, in := range inputs {
+		if pbt.Mine(i) {
+			runCase(t, "odd-literals-info", Case{Inputs: []string{in}})
+			pbt.CaseExact(true, "odd-literals-and-info")
+		}
+	}
+}
+
 var skipExt = map[string]bool{"read": true, "exec": true, "run": true, "sleep": true}
 
 func extNames() []string {
